@@ -10,6 +10,7 @@ import Ymq.Lemmas.GcdReduceInv
 import Ymq.Lemmas.GcdTerm
 import Ymq.Lemmas.GcdOne
 import Ymq.Lemmas.GcdInv
+import Ymq.Lemmas.GcdTotal
 
 namespace Ymq.C09
 open Ymq.Gcd
@@ -93,6 +94,47 @@ theorem big_gcd_spec (N : Nat) (hN : 0 < N) (n p d : Nat) (h : bigGcd N n p = so
         exact (gcd_internal_spec N hN false _ n p _ u v hg).1
 
 example : bigGcd 8 (2 ^ 300 * 3) (2 ^ 200 * 9) = some (2 ^ 200 * 3) := by decide +kernel
+
+/-- `mulword::<N>(w, sz, n)`: the index `nd[sz]` (and `nd[i]`, `i < sz`) is in range and the result
+is the exact product whenever `sz <= N`, the operand fits in its `sz` low words and either a free
+word is left for the carry (`sz < N`) or the product fits in `sz` words — the situation of
+`dot_product` inside `gcd_internal`, where `n < 2^bits`, `w < 2^36`, `bits + 36 < 64 N`. -/
+theorem mulword_no_panic (N w sz n : Nat) (hsz : sz ≤ N) (hn : n < (2 ^ 64) ^ sz)
+    (h : sz < N ∨ n * w < (2 ^ 64) ^ sz) : mulword N w sz n = some (w * n) := by
+  rw [← W_eq] at hn h
+  obtain ⟨r, hr⟩ := mulword_total (N := N) (w := w) hsz hn h
+  rw [hr, mulword_some hr hn]
+
+example : mulword 2 5 2 (2 ^ 100) = some (5 * 2 ^ 100) ∧ mulword 2 (2 ^ 40) 2 (2 ^ 100) = none := by
+  decide +kernel
+
+/-- `no_panic`, partial: **proved** for the non-extended variant on the whole of `BUint<N>`
+(`big_gcd`, hence `ZmodN::gcd`), including operands within 36 bits of the type width (quotient
+fallback), operands with a small top word, the `mulword` index, the `BUint` addition in
+`dot_product`, every i64 operation and debug assertion of `reduce64`, `top64`, and fuel: `big_gcd`
+returns, and what it returns is the gcd.
+**Missing** for the full statement (extended variant `gcd_internal::<N, true>` / `inv_mod` on
+operands of at most `64 N - 12` bits): a bound on the `BInt<N>` cofactors `biga..bigd` showing that
+their range checks cannot fail. The loop's `(x, y)` evolution, `reduce64`, `dot_product`, `mulword`
+and `top64` are covered by `reduce64_inv`, `mulword_no_panic` and the lemmas behind this theorem
+for both variants; the cofactor range is covered by the differential runs only (no panic observed up
+to 1012 / 500 bits; a 511-bit modulus in the 512-bit instantiation does overflow `BInt<8>` in the
+checked profile, see corpus/C09). -/
+theorem no_panic_partial (N : Nat) (hN : 0 < N) (n p : Nat) (hn : n < 2 ^ (64 * N)) (hp : p < 2 ^ (64 * N)) :
+    bigGcd N n p = some (Nat.gcd n p) := by
+  have hd : ∃ d, bigGcd N n p = some d := by
+    unfold bigGcd
+    split
+    · exact ⟨_, rfl⟩
+    · split
+      · exact ⟨_, rfl⟩
+      · obtain ⟨⟨d, u, v⟩, hr⟩ := gcdInternal_noext_total (N := N) hn hp
+        rw [hr]; exact ⟨_, rfl⟩
+  obtain ⟨d, hd⟩ := hd
+  rw [hd, big_gcd_spec N hN n p d hd]
+
+example : ((2 ^ 1018 + 12345) * 35 : Nat) < 2 ^ (64 * 16) ∧ bigGcd 16 ((2 ^ 1018 + 12345) * 35) ((2 ^ 1000 + 15) * 35) = some 35 := by
+  decide +kernel
 
 /-- `inv_mod::<N>(n, p)` for every `n` and every modulus `p` (`p = 0` is refused by the assertion:
 the model returns `none`): whenever it returns,
